@@ -708,6 +708,12 @@ class Scheduler:
                                 )
                                 job.state = JobState.WAITING
                                 dependency.check()
+                                if job.unsatisfied == 0:
+                                    # The dependency became available again
+                                    # before it was re-checked (no status
+                                    # change will be notified): try again
+                                    job.state = JobState.READY
+                                    job._readyEvent.set()
                                 return JobState.WAITING
 
                     for listener in self.listeners:
